@@ -470,6 +470,7 @@ def run(rep, tier, seed, only=None):
     rep.bounds = {"entries": "thorough: all 2 x 349,724; quick: all 2-input entries + every 20th of the rest (offset rotates with VERIF_SEED)",
                   "normalisation shapes (outputs x columns)": "quick 1x4,2x4,3x4,1x8; thorough adds 2x8 (and 4x4)", "look-ups": "all 1-output tables n=2,3; all 2-input tables with 2 and 3 outputs; seeded 3-input tables with 2..5 outputs; seeded don't-care models <=4 don't-cares"}
     rep.outside = ["tables with more than 3 inputs (not stored)", "normalisation shape 3x8 and larger (path count)", "more than 4 don't-cares"]
+    rep.bounds['systematic models'] = 'every one-output model over two inputs (3^4 tables; half of them in the quick tier) under no list, the empty list, (INPUT,) and (INPUT, IFF)'
     rep.bounds['measures / histories'] = "don't-care look-ups under 6 exclusion lists incl. ones that make linear completions free; replays carry the look-up history of the worker"
     rep.rule = "cases = stored entries (distinct by key), normalisation shapes, look-up tables"
     rep.explanation = ("every decoded entry's real-evaluator term is compared with its key by z3 (batched); NormalizationInfo is executed on a fully symbolic table, "
